@@ -51,7 +51,9 @@ var ctors = []ctor{
 	{"errors.Errorf(%w)", false, false, func(d int) reg.R { return reg.R{Err: errors.Errorf("x %d: %w", 1, base), Frames: reg.Capture()} }},
 	{"errors.NewWithDepthf(%w)", true, false, func(d int) reg.R { return reg.R{Err: errors.NewWithDepthf(d, "%w: x", base), Frames: reg.Capture()} }},
 	{"errors.AssertionFailedf(%w)", false, false, func(d int) reg.R { return reg.R{Err: errors.AssertionFailedf("x: %w", base), Frames: reg.Capture()} }},
-	{"errors.AssertionFailedWithDepthf(%w)", true, false, func(d int) reg.R { return reg.R{Err: errors.AssertionFailedWithDepthf(d, "x: %w", base), Frames: reg.Capture()} }},
+	{"errors.AssertionFailedWithDepthf(%w)", true, false, func(d int) reg.R {
+		return reg.R{Err: errors.AssertionFailedWithDepthf(d, "x: %w", base), Frames: reg.Capture()}
+	}},
 	{"errutil.NewWithDepthf(%w)", true, false, func(d int) reg.R { return reg.R{Err: errutil.NewWithDepthf(d, "x: %w", base), Frames: reg.Capture()} }},
 	{"errors.Wrapf(error arg)", false, false, func(d int) reg.R { return reg.R{Err: errors.Wrapf(base, "x: %v", base), Frames: reg.Capture()} }},
 	{"errors.Wrap", false, false, func(d int) reg.R { return reg.R{Err: errors.Wrap(base, "x"), Frames: reg.Capture()} }},
